@@ -5,6 +5,7 @@ import (
 	"cmp"
 	"container/list"
 	"fmt"
+	"math"
 	"slices"
 
 	"github.com/relab/hotstuff"
@@ -28,10 +29,12 @@ func NewAuthority(
 ) *Authority {
 	// Apply cache wrapping if configured in RuntimeConfig
 	if cacheSize := config.CacheSize(); cacheSize > 0 {
+		// the configured size is unsigned; as an int a size above MaxInt would be a negative capacity
+		capacity := int(min(cacheSize, math.MaxInt))
 		base = &Cache{
 			impl:     base,
-			capacity: int(cacheSize),
-			entries:  make(map[string]*list.Element, cacheSize),
+			capacity: capacity,
+			entries:  make(map[string]*list.Element, capacity),
 		}
 	}
 	ca := &Authority{
